@@ -410,11 +410,12 @@ impl WalWriter {
             ))
         })?;
 
-        // Rename to timestamped file
+        // Rename to timestamped file. Recovery replays logs in file-name order, so rotated
+        // logs must sort before the active `state.wal`: digits sort before 'w'.
         let timestamp = current_timestamp();
         let rotated_path = self
             .path
-            .with_file_name(format!("wal.{timestamp}.{WAL_EXTENSION}"));
+            .with_file_name(format!("state.{timestamp}.{WAL_EXTENSION}"));
         std::fs::rename(&self.path, &rotated_path).map_err(|e| {
             P2PError::Storage(StorageError::Database(
                 format!("Failed to rotate WAL: {e}").into(),
